@@ -892,8 +892,55 @@ static void place(vf_rng *r, double d, int dir, double *p0, double *p1)
     *p1 = *p0 + dir * d;
 }
 
+/* ROUND-NUMBER requests: limits that are small integers or powers of two, positions on an eighth grid, boundary velocities that are simple fractions of
+   the limit - what people actually type, and where quantities the generators compute internally (an iterate am/2, 3am/4 ..., a branch threshold, a phase
+   time) coincide EXACTLY with a boundary, which log-uniform reals meet with probability ~2^-47 (seeded change C14-M: the acceleration search of the bell
+   generator runs out when the largest admissible acceleration is exactly a dyadic fraction of am, and the new accept path forgets the peak velocity).
+   For the bell generator half of the rest-to-rest distances are constructed backwards from such a fraction: d = 2 jm (f am / jm)^3, f = k/16. */
+static double round_number(vf_rng *r)
+{
+    switch (vf_below(r, 4))
+    {
+    case 0: return ldexp(1, (int)vf_range(r, -3, 4));
+    case 1: return (double)vf_range(r, 1, 10);
+    case 2: return (double)vf_range(r, 1, 10) / 2;
+    default: return ldexp((double)vf_range(r, 1, 3), (int)vf_range(r, -2, 3));
+    }
+}
+static double round_fraction(vf_rng *r, double lim)
+{
+    static double const f[] = {0, 0, 0, 0.25, 0.5, 0.75, 1, -0.25, -0.5, 0.125};
+    return lim * f[vf_below(r, sizeof(f) / sizeof(f[0]))];
+}
+static void make_round(vf_rng *r, double in[7], int bell)
+{
+    int const dir = vf_chance(r, 1, 2) ? 1 : -1;
+    double const a = round_number(r), b = round_number(r), c = round_number(r), p0 = (double)vf_range(r, -4, 4) * (vf_chance(r, 1, 2) ? 1 : 0.125);
+    double d = (double)vf_range(r, 1, 64) / 8, v0, v1;
+    if (bell)
+    {
+        double const jm = a, am = b, vm = c;
+        v0 = round_fraction(r, vm); v1 = round_fraction(r, vm);
+        if (vf_chance(r, 1, 2))
+        {
+            double const fr = (double)vf_range(r, 1, 15) / 16, x = fr * am / jm;
+            d = 2 * jm * x * x * x;
+            if (vf_chance(r, 3, 4)) { v0 = v1 = 0; }
+        }
+        in[0] = jm; in[1] = am; in[2] = vm; in[3] = dir * p0; in[4] = dir * p0 + dir * d; in[5] = dir * v0; in[6] = dir * v1;
+    }
+    else
+    {
+        double const vm = a, A = b, D = vf_chance(r, 1, 2) ? b : c;
+        v0 = round_fraction(r, vm); v1 = round_fraction(r, vm);
+        in[0] = vm; in[1] = dir * A; in[2] = -dir * D; in[3] = dir * p0; in[4] = dir * p0 + dir * d; in[5] = dir * v0; in[6] = dir * v1;
+    }
+    VF_COUNT("round-number-requests");
+}
+
 static void make_trap(vf_rng *r, double in[7])
 {
+    if (vf_chance(r, 1, 8)) { make_round(r, in, 0); return; }
     unsigned style = (unsigned)vf_below(r, 20);
     int dir = vf_chance(r, 1, 2) ? 1 : -1;
     double vm = vf_logu(r, -3, 3);
@@ -962,6 +1009,7 @@ static double bell_dmin(double jm, double am, double v0, double v1)
 
 static void make_bell(vf_rng *r, double in[7])
 {
+    if (vf_chance(r, 1, 6)) { make_round(r, in, 1); return; }
     unsigned style = (unsigned)vf_below(r, 24);
     int dir = vf_chance(r, 1, 2) ? 1 : -1;
     double jm = vf_logu(r, -3, 3), am = vf_logu(r, -3, 3), vm = vf_logu(r, -3, 3);
